@@ -6,6 +6,8 @@ pub struct Atoms {
     /// current interval of each atom (part of the abstract state)
     pub itv: Vec<(i128, i128)>,
     pub defs: Rc<Vec<AtomDef>>,
+    /// odd moduli of interest (q): exact divisions by 2^k keep a congruence modulo these
+    pub moduli: Rc<Vec<i128>>,
 }
 
 #[derive(Clone, Debug)]
@@ -422,8 +424,45 @@ pub fn shr(a: &IntV, b: &IntV, ty: ITy, at: &Atoms) -> IntV {
             affs = affs_of(&a).iter().map(|x| Aff { atom: x.atom, a_lo: x.a_lo / s, a_hi: x.a_hi / s, b_lo: x.b_lo / s, b_hi: x.b_hi / s }).collect();
         }
     }
+    if let (Some(k), Some(l)) = (k, &a.lin) {
+        let p = 1i128 << k;
+        if l.m == 0 && l.d % p == 0 && l.terms.iter().all(|t| t.1 % p == 0) && !l.terms.is_empty() {
+            // every term is a multiple of 2^k: the division is exact and stays linear
+            lin = Some(Rc::new(Lin { m: 0, d: l.d / p, terms: l.terms.iter().map(|t| (t.0, t.1 / p)).collect() }));
+            let s = (2.0f64).powi(k as i32);
+            affs = affs_of(&a).iter().map(|x| Aff { atom: x.atom, a_lo: x.a_lo / s, a_hi: x.a_hi / s, b_lo: x.b_lo / s, b_hi: x.b_hi / s }).collect();
+        } else if let Some((rm, rd)) = at.residue(l) {
+            // exact division of a multiple of 2^k: modulo an odd q, res = value * (2^k)^-1
+            if rd == 0 && rm % p == 0 {
+                for q in at.moduli.iter() {
+                    if let Some(e) = at.expand_mod(l, *q) {
+                        let inv = mod_inv(p.rem_euclid(*q), *q);
+                        if let Some(sc) = e.scale(inv).and_then(|x| x.modulo(*q)) {
+                            lin = Some(Rc::new(sc));
+                        }
+                    }
+                }
+            }
+        }
+    }
     let e = Exact { lo: *c.iter().min().unwrap(), hi: *c.iter().max().unwrap(), lin, affs };
     finish(e, ty, taint, true, at).0
+}
+
+pub fn mod_inv(a: i128, m: i128) -> i128 {
+    // extended Euclid; m odd prime in practice
+    let (mut r0, mut r1) = (m, a.rem_euclid(m));
+    let (mut t0, mut t1) = (0i128, 1i128);
+    while r1 != 0 {
+        let q = r0 / r1;
+        let r2 = r0 - q * r1;
+        r0 = r1;
+        r1 = r2;
+        let t2 = t0 - q * t1;
+        t0 = t1;
+        t1 = t2;
+    }
+    t0.rem_euclid(m)
 }
 
 fn bitlen(x: i128) -> u32 {
@@ -443,6 +482,29 @@ pub fn bitand(a: &IntV, b: &IntV, ty: ITy) -> IntV {
         }
         if x.is_const() == Some(0) {
             return IntV::konst(0, ty).with_taint(taint);
+        }
+    }
+    // x & (2^k - 1) with x inside one aligned block of size 2^k:  x - block_base (exact)
+    for (x, y) in [(a, b), (b, a)] {
+        if let Some(m) = y.is_const() {
+            if m > 0 && (m & (m + 1)) == 0 && x.lo >= 0 {
+                let p = m + 1;
+                if x.lo / p == x.hi / p {
+                    let base = (x.lo / p) * p;
+                    let mut r = x.clone();
+                    r.lo -= base;
+                    r.hi -= base;
+                    r.ty = ty;
+                    r.taint = taint;
+                    r.canon = None;
+                    r.affs.clear();
+                    r.lin = match &x.lin {
+                        Some(l) => l.add(&Lin::konst(-base)).map(Rc::new),
+                        None => None,
+                    };
+                    return r;
+                }
+            }
         }
     }
     // sign mask & K  ->  {0, K}
@@ -491,6 +553,28 @@ pub fn bitor(a: &IntV, b: &IntV, ty: ITy) -> IntV {
         return IntV::new(a.lo.max(b.lo), hi.min(sat_add(a.hi, b.hi)).min(ty.max()), ty).with_taint(taint);
     }
     IntV::top(ty).with_taint(taint)
+}
+
+/// `a | b` where b is a known multiple of 2^k and 0 <= a < 2^k is the sum a + b
+pub fn bitor_disjoint(a: &IntV, b: &IntV, ty: ITy, at: &Atoms) -> Option<IntV> {
+    for (x, y) in [(a, b), (b, a)] {
+        if x.lo < 0 || y.lo < 0 {
+            continue;
+        }
+        let k = bitlen(x.hi);
+        if k >= 100 {
+            continue;
+        }
+        let p = 1i128 << k;
+        let mult = match &y.lin {
+            Some(l) if l.m == 0 => l.d % p == 0 && l.terms.iter().all(|t| t.1 % p == 0),
+            _ => y.lo == y.hi && y.lo % p == 0,
+        };
+        if mult {
+            return Some(arith(Arith::Add, x, y, ty, true, at).0);
+        }
+    }
+    None
 }
 
 pub fn bitxor(a: &IntV, b: &IntV, ty: ITy) -> IntV {
